@@ -75,10 +75,12 @@ theorem frame_info (s : St) (t : Name) : Frame s (step true s (.info t)) := by
   · exact Frame.refl s
   · simp only [info]
     split
-    · exact frame_crashed s
+    · exact Frame.refl s
     · split
-      · next h => exact frame_erase h
-      · exact Frame.refl s
+      · exact frame_crashed s
+      · split
+        · next h => exact frame_erase h
+        · exact Frame.refl s
 
 theorem frame_infoOne (s : St) (t : Name) : Frame s (infoOne s t) := by
   simp only [infoOne]
@@ -212,16 +214,29 @@ theorem depIs_crash_empty (c : Checker) (fs : FS) (deps : List Path) :
   simp only [depIs]
   cases fs p <;> simp [depVerdict, Rcd.empty]
 
+theorem notInPrev_eq (r : Rcd) (p : Path) : notInPrev r p = notSaved r p := rfl
+
+theorem depRaises_eq (c : Checker) (r : Rcd) (fs : FS) (p : Path) : depRaises c r fs p = depIs .crash c r fs p := by
+  simp only [depRaises, depIs, depVerdict, notInPrev_eq]
+  cases fs p with
+  | none => rfl
+  | some cur =>
+    cases r.fstate p with
+    | none => simp
+    | some st => cases notSaved r p <;> simp
+
+theorem depListed_eq (c : Checker) (r : Rcd) (fs : FS) (p : Path) : depListed c r fs p = depIs .modified c r fs p := by
+  simp only [depListed, depIs, depVerdict, notInPrev_eq]
+  cases fs p with
+  | none => rfl
+  | some cur =>
+    cases r.fstate p with
+    | none => simp
+    | some st => cases notSaved r p <;> simp
+
 theorem depRaises_le (c : Checker) (r : Rcd) (fs : FS) (p : Path) (h : depRaises c r fs p = true) :
     depIs .crash c r fs p = true := by
-  simp only [depRaises] at h
-  simp only [depIs, depVerdict]
-  cases hf : fs p with
-  | none => simp [hf] at h
-  | some cur =>
-    cases hs : r.fstate p with
-    | none => simp [hf, hs] at h
-    | some st => simp only [hf, hs, Bool.and_eq_true] at h; simpa using h.2
+  rw [← depRaises_eq]; exact h
 
 theorem any_depRaises_false {c : Checker} {r : Rcd} {fs : FS} {deps : List Path}
     (h : deps.any (depIs .crash c r fs) = false) : deps.any (depRaises c r fs) = false := by
@@ -234,29 +249,11 @@ theorem depRaises_empty (c : Checker) (fs : FS) (deps : List Path) :
 
 theorem listed_of_modified {c : Checker} {r : Rcd} {fs : FS} {p : Path} (h : depIs .modified c r fs p = true) :
     depListed c r fs p = true := by
-  simp only [depIs, depVerdict] at h
-  simp only [depListed]
-  cases hf : fs p with
-  | none => simp [hf] at h
-  | some cur =>
-    cases hs : r.fstate p with
-    | none => rfl
-    | some st => simp only [hf, hs] at h; simp [h]
+  rw [depListed_eq]; exact h
 
 theorem listed_cases {c : Checker} {r : Rcd} {fs : FS} {p : Path} (h : depListed c r fs p = true) :
     depIs .modified c r fs p = true ∨ notInPrev r p = true := by
-  simp only [depListed] at h
-  simp only [depIs, depVerdict]
-  cases hf : fs p with
-  | none => simp [hf] at h
-  | some cur =>
-    cases hs : r.fstate p with
-    | none => left; simp
-    | some st =>
-      simp only [hf, hs, Bool.or_eq_true] at h
-      rcases h with h | h
-      · exact Or.inr h
-      · left; simpa using h
+  left; rw [← depListed_eq]; exact h
 
 theorem notInPrev_depsChanged {r : Rcd} {deps : List Path} {p : Path} (hp : p ∈ deps) (h : notInPrev r p = true) :
     depsChanged true r deps = true := by
@@ -282,14 +279,7 @@ theorem any_crash_cases {c : Checker} {r : Rcd} {fs : FS} {deps : List Path}
     left
     rw [List.any_eq_true]
     refine ⟨p, hp, ?_⟩
-    simp only [depIs, depVerdict] at h
-    simp only [depRaises, hn]
-    cases hf : fs p with
-    | none => simp [hf] at h
-    | some cur =>
-      cases hs : r.fstate p with
-      | none => simp [hf, hs] at h
-      | some st => simp only [hf, hs] at h; simpa using h
+    rw [depRaises_eq]; exact h
 
 theorem any_listed_of_modified {c : Checker} {r : Rcd} {fs : FS} {deps : List Path}
     (h : deps.any (depIs .modified c r fs) = true) : deps.any (depListed c r fs) = true := by
